@@ -22,7 +22,7 @@ pub mod stdlib {
     pub use std::vec::Vec;
 }
 pub mod num_bigint { pub use crate::shim::{BigInt, BigUint, Sign, ParseBigIntError, ToBigInt}; }
-pub mod num_traits { pub use crate::shim::{Zero, One, Signed, ToPrimitive, FromPrimitive, CheckedSub}; pub use crate::shim::NtPrimInt as PrimInt; pub use crate::shim::nt_checked_pow as checked_pow; }
+pub mod num_traits { pub use crate::shim::{Zero, One, Signed, ToPrimitive, FromPrimitive, CheckedSub}; pub use crate::shim::nt::NtPrimInt as PrimInt; pub use crate::shim::nt::nt_checked_pow as checked_pow; }
 pub mod num_integer { pub use crate::shim::NumInteger as Integer; pub use crate::shim::integer_div_rem as div_rem; }
 
 use self::stdlib::cmp::{self, Ordering};
